@@ -1,6 +1,8 @@
 package main
 
 import (
+	"encoding/hex"
+	"os"
 	"fmt"
 	"go/types"
 	"strings"
@@ -54,8 +56,25 @@ func (w *Worker) freshName(name string) string {
 	return name
 }
 
+var forcedInputs map[string]string
+
+func forcedBig(n string) (*bigInt, bool) {
+	if forcedInputs == nil {
+		return nil, false
+	}
+	s, ok := forcedInputs[n]
+	if !ok {
+		return nil, false
+	}
+	v, ok := new(bigInt).SetString(s, 10)
+	return v, ok
+}
+
 func (w *Worker) nondetBV(name, kind string, width int) *Term {
 	n := w.freshName(name)
+	if fv, ok := forcedBig(n); ok {
+		return BVConst(fv, width)
+	}
 	v := Var(n, SBV(width))
 	w.st.inputs = append(w.st.inputs, &InputRec{Name: n, Kind: kind, Vars: []*Term{v}})
 	return v
@@ -82,6 +101,9 @@ func (e *Engine) registerIntrinsics() {
 	in["vf:vfInt"] = nd("int", 64)
 	in["vf:vfBool"] = func(w *Worker, g *G, fr *Frame, fn *ssa.Function, a []Value) (Value, ctl) {
 		n := w.freshName(constString(a[0]))
+		if fv, ok := forcedBig(n); ok {
+			return BoolConst(fv.Sign() != 0), ctlNext
+		}
 		v := Var(n, SBool)
 		w.st.inputs = append(w.st.inputs, &InputRec{Name: n, Kind: "bool", Vars: []*Term{v}})
 		return v, ctlNext
@@ -90,6 +112,15 @@ func (e *Engine) registerIntrinsics() {
 		n := w.freshName(constString(a[0]))
 		ln := constInt(a[1])
 		vars := make([]*Term, ln)
+		if forcedInputs != nil {
+			if hx, ok := forcedInputs[n]; ok {
+				bs, _ := hex.DecodeString(hx)
+				for i := range vars {
+					vars[i] = BVu(uint64(bs[i]), 8)
+				}
+				return w.bytesToSlice(vars), ctlNext
+			}
+		}
 		for i := range vars {
 			vars[i] = Var(fmt.Sprintf("%s[%d]", n, i), SBV(8))
 		}
@@ -102,6 +133,10 @@ func (e *Engine) registerIntrinsics() {
 		}
 		n := w.freshName(constString(a[0]))
 		bits := constInt(a[1])
+		if fv, ok := forcedBig(n); ok {
+			o := w.st.alloc(fn.Signature.Results().At(0).Type().(*types.Pointer).Elem(), "big", &BigV{IntConst(fv)})
+			return PtrV{O: o}, ctlNext
+		}
 		v := Var(n, SInt)
 		w.st.inputs = append(w.st.inputs, &InputRec{Name: n, Kind: "big", N: bits, Vars: []*Term{v}})
 		lim := IntConst(pow2(bits - 1))
@@ -119,6 +154,21 @@ func (e *Engine) registerIntrinsics() {
 		conds := make([]*Term, hi-lo+1)
 		for i := range conds {
 			conds[i] = TTrue
+		}
+		if forcedInputs != nil {
+			// forced choice: peek the name this call would get
+			cnt := w.st.nameCnt[name] + 1
+			fn := name
+			if cnt > 1 {
+				fn = fmt.Sprintf("%s#%d", name, cnt)
+			}
+			if fv, ok := forcedBig(fn); ok {
+				for i := range conds {
+					if lo+i != int(fv.Int64()) {
+						conds[i] = TFalse
+					}
+				}
+			}
 		}
 		i := w.decideN(conds, "choose "+name)
 		n := w.freshName(name)
@@ -385,6 +435,9 @@ func (w *Worker) assertion(site string, c *Term) {
 		return
 	}
 	nc := Not(c)
+	if os.Getenv("VF_DEBUG_ASSERT") != "" {
+		fmt.Fprintf(os.Stderr, "ASSERT %s: %s\n", site, c.str(0))
+	}
 	t0 := nowMs()
 	ob := Obligation{Site: site, PCLen: len(w.st.pc)}
 	vars := w.allVars()
